@@ -115,56 +115,47 @@ theorem cancel_read_order {ans : Nat} (hr : Reach d itw s) (hs : step s (.cancel
   all_goals simp_all
   all_goals try (cases hrd : s.wk.reading <;> simp_all)
 
-/-- **wake_after_exit_is_noop (partial).**  After a task has exited through the normal path (no work
-left: the event of its last callback was not EVENT_CANCEL), a wake through a waker that outlived it
-touches nothing: no built-in call, no panic. -/
-theorem wake_after_exit_is_noop_partial (hr : Reach d itw s) (hp : s.pc = .gone) (hc : s.ev0 ≠ Limits.eventCancel)
-    (hg : s.sharedGone = false) (ans : Nat) :
+/-- **wake_after_exit_is_noop.**  After a task has exited — through the normal path or by cancellation,
+asleep or not — a wake through a waker that outlived it touches nothing: no built-in call, no panic.
+(`Drop for TaskState` marks the task woken before anything else; until the `fix:` commit in /repo that
+introduced this, a task cancelled while asleep stayed in state SLEEPING and the statement was false.) -/
+theorem wake_after_exit_is_noop (hr : Reach d itw s) (hp : s.pc = .gone) (hg : s.sharedGone = false) (ans : Nat) :
     step s (.wake ans) = .ok { s with wk := { s.wk with sleep := Limits.sleepStateWoken }, woken := true } [] := by
   have inv := reach_inv hr
   have hle := inv.sleepLe
   have h2 : s.wk.sleep ≠ 2 := by
     intro h
-    rcases inv.sl2 h with h' | ⟨h', _⟩ | ⟨_, h'⟩
-    · simp [hp] at h'
-    · simp [hp] at h'
-    · exact hc h'
+    rcases inv.sl2 h with h' | ⟨h', _⟩ | ⟨h', _⟩ <;> simp [hp] at h'
   apply wakes_coalesced (by simp [hp, userPc]) hg
   simp only [Limits.sleepStatePolling, Limits.sleepStateWoken]
   omega
 
-/-! ## wake_after_exit_is_noop: the full statement is false of the current code
+/-- … and the same while the destructors of the task's own futures run (`Drop for TaskState`): a destructor
+that wakes the task (e.g. a channel sender dropped together with the future) is a no-op as well. -/
+theorem wake_in_destructor_is_noop (hr : Reach d itw s) (hp : s.pc = .dropTasks) (hg : s.sharedGone = false) (ans : Nat) :
+    step s (.wake ans) = .ok { s with wk := { s.wk with sleep := Limits.sleepStateWoken }, woken := true } [] := by
+  have inv := reach_inv hr
+  have hle := inv.sleepLe
+  have h2 : s.wk.sleep ≠ 2 := by
+    intro h
+    rcases inv.sl2 h with h' | ⟨h', _⟩ | ⟨h', _⟩ <;> simp [hp] at h'
+  apply wakes_coalesced (by simp [hp, userPc]) hg
+  simp only [Limits.sleepStatePolling, Limits.sleepStateWoken]
+  omega
 
-Full-strength statement (properties.jsonl: "including wakes … after exit"):
-
-    ∀ s, Reach .start true s → s.pc = .gone → s.sharedGone = false →
-      ∀ ans, ∃ s', step s (.wake ans) = .ok s' []
-
-is FALSE.  EVENT_CANCEL returns `CallbackCode::Exit` before the sleep state is touched, and
-`Drop for TaskState` does not touch it either: a task cancelled while asleep stays in state SLEEPING
-for ever.  A later `wake` (a waker held by another task, or — during the destruction itself — a
-destructor of one of the task's own futures) then takes the SLEEPING branch and writes to the wake-up
-stream, whose read was just cancelled (write BLOCKS) or whose reader is already dropped (write answers
-DROPPED): `assert_eq!(rc, COMPLETED | (1 << 4))` panics in the *waker's caller*.  Witness below; the
-`_partial` theorem above has the exact extra hypothesis (the exit was not a cancellation).
-Known-finding class `wake-after-cancelled-sleep`. -/
-
-/-- the witness run: sleep on the wake-up stream (reader 1, writer 2, set 3), a waker is cloned, the
-host cancels the task, the state is destroyed -/
+/-- the former counterexample (repaired): sleep on the wake-up stream (reader 1, writer 2, set 3), a waker
+is cloned, the host cancels the task, the state is destroyed — and then the waker is used -/
 def cancelledAsleep : List Label :=
   [.start, .call 0 0 0, .cancelRead 0, .tau, .cloneRef, .pollDone false false, .decide 0 0 0,
    .sleepRead 1 2 3 Limits.blocked, .call Limits.eventCancel 0 0, .cancelRead Limits.cancelled, .dropTasksDone, .tau]
 
-theorem wake_after_exit_full_false :
-    ¬ ∀ s, Reach .start true s → s.pc = .gone → s.sharedGone = false → ∀ ans, ∃ s', step s (.wake ans) = .ok s' [] := by
-  intro hall
-  have hrun : ∃ sW, run (St.init .start true) cancelledAsleep = some sW ∧ sW.pc = .gone ∧ sW.sharedGone = false ∧
-      sW.wk.sleep = 2 ∧ sW.wk.itw = true ∧ sW.wk.stream = some (1, 2) := ⟨_, rfl, rfl, rfl, rfl, rfl, rfl⟩
-  obtain ⟨sW, h1, h2, h3, h4, h5, h6⟩ := hrun
-  have hr := run_reach cancelledAsleep Reach.init h1
-  -- the host answers DROPPED (the reader is gone): the assertion in `WakerState::wake` fails
-  obtain ⟨s', hs⟩ := hall sW hr h2 h3 Limits.dropped
-  simp [step, h2, userPc, h3, wakeByRef, h4, h5, h6, Step.bind, wroteOne] at hs
+theorem wake_after_cancelled_sleep_is_noop :
+    ∃ sW, run (St.init .start true) cancelledAsleep = some sW ∧ sW.pc = .gone ∧ sW.sharedGone = false ∧
+      ∀ ans, ∃ s', step sW (.wake ans) = .ok s' [] := by
+  refine ⟨_, rfl, rfl, rfl, ?_⟩
+  intro ans
+  have hr := run_reach cancelledAsleep (Reach.init (driver := .start) (itw := true)) rfl
+  exact ⟨_, wake_after_exit_is_noop hr rfl rfl ans⟩
 
 /-! ## Non-vacuity -/
 
